@@ -145,6 +145,9 @@ def b1_b2(repo, res, canon, pc, logic):
 
 
 def countdown(repo, res, canon, g, dur):
+    """path-based: the loop continues exactly while counter > 0, decrementing by one and sleeping
+    one step per cycle, and the counter starts at duration - 1"""
+    logic = Logic(canon)
     fr = Frame(g)
     obsname = g.params[1]
     dur = dur or '%s.duration' % obsname
@@ -154,46 +157,68 @@ def countdown(repo, res, canon, g, dur):
         res.bad('C07.B2', g, None, what, 'no loop')
         return
     lp = loops[0]
-    # the counter: a Name decremented in the loop under `name > 0`
-    decs = [n for n in ast.walk(lp) if isinstance(n, ast.AugAssign) and isinstance(n.target, ast.Name)
-            and isinstance(n.op, ast.Sub)]
-    if not decs:
+    inside = {id(n) for n in ast.walk(lp)}
+    # counter candidates: names decremented by one inside the loop
+    cands = {}
+    for p in cached_paths(g):
+        for e in p.events:
+            if e.node is not None and id(e.node) in inside:
+                for ef in effects_of_event(canon, e):
+                    if ef.kind == 'aug-' and ef.arg == '1' and ef.loc.isidentifier():
+                        cands[ef.loc] = True
+    if not cands:
         res.bad('C07.B2', g, lp, what, 'the loop has no countdown: its number of steps is not tied to the duration')
         return
-    cname = decs[0].target.id
-    inits = [n for n in walk_no_nested(g.node) if isinstance(n, ast.Assign) and any(
-        isinstance(t, ast.Name) and t.id == cname for t in n.targets)]
-    ok = True
-    why = ''
     want = Affine({dur: 1}, -1)
-    if len(inits) != 1 or enclosing_loops(g, inits[0]) or affine(canon, inits[0].value, fr) != want:
-        ok, why = False, 'the countdown starts at %s, not duration - 1: the deposit runs a different number of times' % (
-            short(ast.unparse(inits[0].value)) if inits else '?')
-    for d in decs:
-        if not (isinstance(d.value, ast.Constant) and d.value.value == 1):
-            ok, why = False, 'the countdown decrements by %s' % ast.unparse(d.value)
-        ifs = [s for s in ast.walk(lp) if isinstance(s, ast.If) and any(x is d for x in ast.walk(ast.Module(body=s.body, type_ignores=[])))]
-        if not ifs:
-            ok, why = False, 'the decrement is not guarded by `counter > 0`'
-            continue
-        t = ifs[-1].test
-        if not (isinstance(t, ast.Compare) and len(t.ops) == 1 and isinstance(t.ops[0], ast.Gt)
-                and isinstance(t.left, ast.Name) and t.left.id == cname
-                and isinstance(t.comparators[0], ast.Constant) and t.comparators[0].value == 0):
-            ok, why = False, 'the countdown test is `%s`, not `%s > 0`: the loop runs a different number of steps' % (
-                short(ast.unparse(t)), cname)
-        brk = any(isinstance(x, ast.Break) for s in ifs[-1].orelse for x in ast.walk(s))
-        if not brk:
-            ok, why = False, 'the loop does not stop when the countdown reaches 0'
-    # every cycle yields exactly one step
-    for seg, how in iteration_segments(g, lp):
-        if how != 'back':
-            continue
-        ys = [y for e in seg if e.kind == 'stmt' for y in ast.walk(e.node) if isinstance(y, ast.Yield)]
-        if len(ys) != 1 or not (isinstance(ys[0].value, ast.Call) and call_name(ys[0].value) == 'timeout' and
-                                canon.c(ys[0].value.args[0], fr) in ('1', 'TIMESTEP')):
-            ok, why = False, 'a cycle of the loop does not sleep exactly one timestep'
-    (res.ok if ok else res.bad)('C07.B2', g, lp, what, 'ok' if ok else why)
+    best_why = ''
+    for cname in sorted(cands):
+        ok = True
+        why = ''
+        inits = [n for n in walk_no_nested(g.node) if isinstance(n, ast.Assign) and any(
+            isinstance(t, ast.Name) and t.id == cname for t in n.targets) and id(n) not in inside]
+        if len(inits) != 1 or affine(canon, inits[0].value, fr) != want:
+            ok, why = False, 'the countdown starts at %s, not duration - 1: the deposit runs a different number of times' % (
+                short(ast.unparse(inits[0].value)) if inits else '?')
+        pos = lit_lt(0, cname)
+        n_back = n_exit = 0
+        for seg, how in iteration_segments(g, lp):
+            if how == 'raise':
+                continue
+            must = set()
+            for e in seg:
+                if e.kind == 'test':
+                    must |= logic.must(e.node, e.frame, e.pol)
+            decs = sum(1 for e in seg for ef in effects_of_event(canon, e)
+                       if ef.loc == cname and ef.kind == 'aug-' and ef.arg == '1')
+            other = [ef for e in seg for ef in effects_of_event(canon, e)
+                     if ef.loc == cname and not (ef.kind == 'aug-' and ef.arg == '1')]
+            if other:
+                ok, why = False, 'the countdown is changed by `%s`' % short(ast.unparse(other[0].node))
+            if how == 'back':
+                n_back += 1
+                if decs and pos not in must:
+                    ok, why = False, 'a cycle decrements the countdown without having tested `%s > 0`' % cname
+                elif decs > 1 or (pos in must and decs != 1):
+                    ok, why = False, 'a continuing cycle decrements the countdown %d times' % decs
+                ys = [y for e in seg if e.kind == 'stmt' for y in ast.walk(e.node) if isinstance(y, ast.Yield)]
+                if len(ys) != 1 or not (isinstance(ys[0].value, ast.Call) and call_name(ys[0].value) == 'timeout' and
+                                        canon.c(ys[0].value.args[0], fr) in ('1', 'TIMESTEP')):
+                    ok, why = False, 'a cycle of the loop does not sleep exactly one timestep'
+            else:
+                n_exit += 1
+                if pos.neg() not in must:
+                    # leaving for another reason (the loop condition) is fine; leaving by the countdown
+                    # must be on counter <= 0
+                    if any(e.kind == 'test' and cname in ast.unparse(e.node) for e in seg):
+                        ok, why = False, 'the loop is left while `%s > 0` may still hold' % cname
+        if not n_back:
+            ok, why = False, 'the loop never cycles'
+        if ok:
+            res.ok('C07.B2', g, lp, what, 'counter %s' % cname)
+            res.analysed(g, 1)
+            return
+        best_why = why
+    res.bad('C07.B2', g, lp, what, best_why)
     res.analysed(g, 1)
 
 
